@@ -130,7 +130,8 @@ def cases(tier, seed):
 
 PLUMB_GLOBS = ["a", "*", "**", "*.py", "d/*", "d/**", "**/a", "**/*.py", "\\*", "\\\\", "a b", "d/e/*", "*/a",
                "e/**", "d/*/a", "**/e/*", "*/*", "a*", "*b", "b.py", "**/", "d", "d/", "./a", "e/a", "**/d/**",
-               "\\a", "*\\*", "**.py", "d/**/b.py", "d/d/../a"]
+               "\\a", "*\\*", "**.py", "d/**/b.py", "d/d/../a",
+               "d**", "d**.py", "**b.py", "e**/a", "d**/a", "d/e**", "*/e/**", "a**"]
 PLUMB_NAMES = ["a", "b.py", "*", "\\", "a b"]
 PLUMB_DIRS = ["", "d/", "e/", "d/e/", "d/d/"]
 
